@@ -70,9 +70,11 @@ impl ChildStdout {
 impl ChildStderr { #[verifier::external_body] pub async fn read_to_string(&mut self, buf: &mut String) -> (r: Result<usize, std::io::Error>) { unimplemented!() } }
 impl Child { #[verifier::external_body] pub async fn wait(&mut self) -> (r: Result<process::ExitStatus, std::io::Error>) { unimplemented!() } }
 #[verifier::external_body] pub fn wait_err(e: std::io::Error) -> (r: MonorailError) ensures r is Generic { unimplemented!() }
+//!assumed src/core/git.rs get_git_cmd_child sha=e68c7f3bbcde4d18
 // ASSUMED (repo function, a tokio Command builder chain): runs `git <args>` in work_path with both outputs piped
 #[verifier::external_body] pub(crate) async fn get_git_cmd_child(git_path: &str, work_path: &path::Path, args: &[&str]) -> (r: Result<Child, MonorailError>)
     ensures r matches Ok(c) ==> c.stdout is Some && c.stdout->Some_0.out == git_stdout(sv(args@), work_path@) { unimplemented!() }
+//!assumed src/core/git.rs parse_nul_paths sha=f1d1beaf155fd278
 // ASSUMED (repo function, iterator adapters): the non-empty NUL-separated fields as changes, in order
 #[verifier::external_body] fn parse_nul_paths(data: &[u8]) -> (r: Vec<Change>) ensures names(r@) == parse_nul(data@) { unimplemented!() }
 pub open spec fn names(v: Seq<Change>) -> Seq<Seq<char>> { Seq::new(v.len(), |i: int| v[i].name@) }
@@ -90,6 +92,7 @@ pub open spec fn settled(pending: Option<HashMap<String, String>>, work: Seq<cha
 #[verifier::external_body] fn extend_changes(v: &mut Vec<Change>, src: Vec<Change>) ensures names(final(v)@) == names(old(v)@) + names(src@) { unimplemented!() }
 #[verifier::external_body] fn sort_changes(v: &mut Vec<Change>)
     ensures sorted_names(names(final(v)@)), forall|p: Seq<char>| #![trigger has(names(final(v)@), p)] has(names(final(v)@), p) <==> has(names(old(v)@), p) { unimplemented!() }
+//!assumed src/core/git.rs get_filtered_changes sha=7f9a521091b74cce
 // ASSUMED (repo function, a tokio_stream adapter chain over file::checksum_is_equal): keeps, in order, the changes that are not settled
 #[verifier::external_body] pub(crate) async fn get_filtered_changes(changes: Vec<Change>, pending: &HashMap<String, String>, work_path: &path::Path) -> (r: Vec<Change>)
     ensures forall|p: Seq<char>| #![trigger has(names(r@), p)] has(names(r@), p) <==> (has(names(changes@), p) && !(pending@.dom().contains(p) && pending@[p]@ == cur_sha(work_path@, p)))
